@@ -417,6 +417,171 @@ fn check_list(v: &mut V, xs: &[RV], t: &RV, check_routes: bool) {
     }
 }
 
+
+// ------------------------------------------------------------- iterator call histories
+
+/// The five list iterators as state machines: every sequence of their operations of the given
+/// length, executed on a fresh iterator, against a pointer-into-a-Vec model.
+const ITER_KINDS: [&str; 5] = ["Value::list_iter", "Cons::list_iter", "Cons::iter", "Cons::into_iter", "Datum::list_iter"];
+
+fn iter_ops(kind: usize) -> &'static [&'static str] {
+    match kind {
+        0 | 1 | 4 => &["is_empty", "peek", "next"],
+        2 => &["peek", "next"],
+        _ => &["peek", "peek_mut-set", "next"],
+    }
+}
+
+fn check_iter_histories(v: &mut V, n: usize, tail: &RV, kind: usize, depth: usize) -> u64 {
+    let xs: Vec<RV> = (0..n).map(|i| RV::Int(i as i128 + 1)).collect();
+    let val = RV::append(xs.clone(), tail.clone()).to_value();
+    let proper = *tail == RV::Null;
+    // expected items of the element iterators
+    let mut e: Vec<Option<RV>> = xs.iter().cloned().map(Some).collect();
+    if !proper {
+        e.push(None);
+        e.push(Some(tail.clone()));
+    }
+    let show = |x: &Option<RV>| match x {
+        Some(r) => format!("Some({})", r),
+        None => "None".to_string(),
+    };
+    let ops = iter_ops(kind);
+    let k = ops.len() as u64;
+    let total = k.pow(depth as u32);
+    let datum = if kind == 4 { lexpr::datum::from_str(&lexpr::to_string(&val).unwrap_or_default()).ok() } else { None };
+    let mut runs = 0u64;
+    for code in 0..total {
+        runs += 1;
+        let seq: Vec<usize> = (0..depth).map(|i| ((code / k.pow(i as u32)) % k) as usize).collect();
+        let mut want: Vec<String> = Vec::new();
+        let mut got: Vec<String> = Vec::new();
+        match kind {
+            0 | 1 | 4 => {
+                let mut p = 0usize;
+                for &o in &seq {
+                    match ops[o] {
+                        "is_empty" => want.push(format!("{}", p >= e.len())),
+                        "peek" => want.push(if p < e.len() { show(&e[p]) } else { "None".into() }),
+                        _ => {
+                            want.push(if p < e.len() { show(&e[p]) } else { "None".into() });
+                            if p < e.len() {
+                                p += 1;
+                            }
+                        }
+                    }
+                }
+                if kind == 4 {
+                    let d = match &datum {
+                        Some(d) => d,
+                        None => return runs,
+                    };
+                    let mut it = match d.list_iter() {
+                        Some(it) => it,
+                        None => return runs,
+                    };
+                    for &o in &seq {
+                        got.push(match ops[o] {
+                            "is_empty" => format!("{}", it.is_empty()),
+                            "peek" => show(&it.peek().map(|r| RV::from_value(r.value()))),
+                            _ => show(&it.next().map(|r| RV::from_value(r.value()))),
+                        });
+                    }
+                } else {
+                    let mut it = if kind == 0 {
+                        match val.list_iter() {
+                            Some(it) => it,
+                            None => return runs,
+                        }
+                    } else {
+                        match val.as_cons() {
+                            Some(c) => c.list_iter(),
+                            None => return runs,
+                        }
+                    };
+                    for &o in &seq {
+                        got.push(match ops[o] {
+                            "is_empty" => format!("{}", it.is_empty()),
+                            "peek" => show(&it.peek().map(RV::from_value)),
+                            _ => show(&it.next().map(RV::from_value)),
+                        });
+                    }
+                }
+            }
+            2 => {
+                let cell = match val.as_cons() {
+                    Some(c) => c,
+                    None => return runs,
+                };
+                let mut p = 0usize;
+                let mut it = cell.iter();
+                for &o in &seq {
+                    let w = if p < n { format!("Some({})", xs[p]) } else { "None".into() };
+                    want.push(w);
+                    if ops[o] == "next" {
+                        if p < n {
+                            p += 1;
+                        }
+                        got.push(show(&it.next().map(|c| RV::from_value(c.car()))));
+                    } else {
+                        got.push(show(&it.peek().map(|c| RV::from_value(c.car()))));
+                    }
+                }
+            }
+            _ => {
+                let cell = match val.as_cons() {
+                    Some(c) => c.clone(),
+                    None => return runs,
+                };
+                let mut cars = xs.clone();
+                let mut p = 0usize;
+                let mut it = cell.into_iter();
+                for &o in &seq {
+                    match ops[o] {
+                        "peek" => {
+                            want.push(if p < n { format!("Some({})", cars[p]) } else { "None".into() });
+                            got.push(show(&it.peek().map(|c| RV::from_value(c.car()))));
+                        }
+                        "peek_mut-set" => {
+                            if p < n {
+                                cars[p] = RV::Int(99);
+                            }
+                            want.push(format!("{}", p < n));
+                            got.push(match it.peek_mut() {
+                                Some(c) => {
+                                    c.set_car(Value::from(99));
+                                    "true".into()
+                                }
+                                None => "false".into(),
+                            });
+                        }
+                        _ => {
+                            if p < n {
+                                let rest = if p + 1 == n { format!("Some({})", tail) } else { "None".to_string() };
+                                want.push(format!("Some(({}, {}))", cars[p], rest));
+                                p += 1;
+                            } else {
+                                want.push("None".into());
+                            }
+                            got.push(match it.next() {
+                                Some((car, rest)) => format!("Some(({}, {}))", RV::from_value(&car), show(&rest.as_ref().map(RV::from_value))),
+                                None => "None".into(),
+                            });
+                        }
+                    }
+                }
+            }
+        }
+        if want != got {
+            let names: Vec<&str> = seq.iter().map(|&o| ops[o]).collect();
+            let at = want.iter().zip(got.iter()).position(|(a, b)| a != b).unwrap_or(0);
+            v.fail(&format!("history:{}", ITER_KINDS[kind]), format!("calls {:?}: call #{} ({}) answered {}, the model says {}", names, at + 1, names[at], got[at], want[at]));
+            return runs;
+        }
+    }
+    runs
+}
+
 // ---------------------------------------------------------------------------- alists
 
 fn alist_entries() -> Vec<RV> {
@@ -607,6 +772,13 @@ fn run_case(sub: &'static str, case: &J, rank: u64, acc: &mut Acc) {
 }
 
 pub fn replay(sub: &str, case: &J, acc: &mut Acc) {
+    if sub == "iterator-histories" {
+        let tls = [RV::Null, RV::sym("t"), RV::Vector(vec![RV::Int(7)])];
+        let (kind, n, ti, depth) = (case["iter_kind"].as_u64().unwrap_or(0) as usize, case["n"].as_u64().unwrap_or(0) as usize, case["tail"].as_u64().unwrap_or(0) as usize, case["depth"].as_u64().unwrap_or(7) as usize);
+        let mut v = V { acc, sub: "iterator-histories", rank: 0, witness: format!("{} over {} element(s), tail {}", ITER_KINDS[kind % 5], n, tls[ti % 3]), case: case.clone() };
+        let _ = guard(std::panic::AssertUnwindSafe(|| check_iter_histories(&mut v, n, &tls[ti % 3], kind % 5, depth)));
+        return;
+    }
     let s: &'static str = match sub {
         "accessors" => "accessors",
         "long-lists" => "long-lists",
@@ -659,6 +831,34 @@ pub fn run(ctx: &Ctx) -> Report {
             acc.outcome(&(n, ti));
             acc.sample(rank, || format!("n={} tail #{}", n, ti));
             run_case("long-lists", &json!({"n": n, "t": ti}), rank, acc);
+        });
+        rep.absorb(sub, accs);
+    }
+    if ctx.want("iterator-histories") {
+        let depth = if ctx.tier.thorough() { 9 } else { 7 };
+        let tls = [RV::Null, RV::sym("t"), RV::Vector(vec![RV::Int(7)])];
+        let total = (4 * tls.len() * ITER_KINDS.len()) as u64;
+        let sub = Sub::new("iterator-histories", "the five list iterators as state machines (Value::list_iter, Cons::list_iter: is_empty / peek / next; Cons::iter: peek / next; Cons::into_iter: peek / peek_mut + set_car / next; Datum::list_iter: is_empty / peek / next): every sequence of operations of the stated length on a fresh iterator over a list of 0..=3 elements with an empty, a symbol or a vector tail, every answer compared with a pointer-into-a-Vec model (incl. the None-then-tail protocol, answers after exhaustion, mutation through peek_mut visible to next); non-trivial = every execution", &format!("depth {}: 4 lengths x 3 tails x 5 iterators, 3^{} or 2^{} call sequences each", depth, depth, depth));
+        let accs = par_ranks(total, |rank, acc| {
+            let r = rank as usize;
+            let kind = r % ITER_KINDS.len();
+            let ti = (r / ITER_KINDS.len()) % tls.len();
+            let n = r / ITER_KINDS.len() / tls.len();
+            acc.sample(rank, || format!("{} over {} element(s), tail {}", ITER_KINDS[kind], n, tls[ti]));
+            let case = json!({"iter_kind": kind, "n": n, "tail": ti, "depth": depth});
+            let mut v = V { acc, sub: "iterator-histories", rank, witness: format!("{} over {} element(s), tail {}", ITER_KINDS[kind], n, tls[ti]), case };
+            let res = guard(std::panic::AssertUnwindSafe(|| check_iter_histories(&mut v, n, &tls[ti], kind, depth)));
+            match res {
+                Ok(runs) => {
+                    acc.evals += runs;
+                    acc.nontrivial += runs;
+                    acc.outcome(&(kind, n, ti));
+                }
+                Err(p) => {
+                    let case = json!({"iter_kind": kind, "n": n, "tail": ti, "depth": depth});
+                    acc.violation("iterator-histories", "panic", "panic", rank, format!("{} over {} element(s)", ITER_KINDS[kind], n), p, || case);
+                }
+            }
         });
         rep.absorb(sub, accs);
     }
